@@ -56,6 +56,8 @@ def value_expr(shape, limit, rng):
         return '"line one\\nline two \\nline three"'
     if shape == "trailing-comma":
         return '[["a", "b"], ["c" * %d], ("d",)]' % max(3, room // 2)
+    if shape == "collapse":
+        return '{"a": 1, "b": "x"}'
     raise ValueError(shape)
 
 
@@ -79,6 +81,13 @@ def run_case(case, seed):
     limit = opts.get("line-length", 88)
     val = value_expr(c["shape"], limit, rng)
     old_arg = "" if c["cats"] == "create" else "[0]"
+    if c["shape"] == "collapse":
+        # a display that is exploded because it is too long becomes short enough for one line (the entry is fixed
+        # in place, the trailing comma of the exploded display survives the edit)
+        val = '{"a": 1, "b": "x"}'
+        old_arg = '{"a": 1, "b": "%s"}' % ("y" * limit)
+        if c["cats"] == "create":
+            c = dict(c, cats="fix")
     extra = "    assert 1 == snapshot()\n" if c["cats"] == "create-fix" else ""
     src = ("from inline_snapshot import snapshot\n\n\ndef test_a():\n    value = %s\n    assert value == snapshot(%s)\n%s"
            % (val, old_arg, extra))
